@@ -16,6 +16,8 @@
     resumes exactly once, after a releasing signal issued after its wait began
     and never before; NRT (deterministic) and RT under random-yield injection
     with releases also coming from a plain thread.
+(e) pause/resume and stop/reset/play of a routine playing on a real clock (RT and
+    NRT): it continues where it was, every step once, at the right logical times.
 (d) Fault sequences: a release that raises half way (a waiter's TempoClock was
     stopped) followed by retries: no waiter is resumed twice for one wait.
 """
@@ -45,11 +47,13 @@ MIN_COUNTERS = {
     'quick': {'fsm_ops_compared': 20000, 'fsm_inside_ops': 3000,
               'cond_waits_hung_checked': 300, 'ctx_checks': 20000,
               'mt_histories': 500, 'mt_concurrent_next_calls': 5000,
-              'fault_cases': 40, 'fault_release_attempts_that_raised': 20},
+              'fault_cases': 40, 'fault_release_attempts_that_raised': 20,
+              'pause_resume_cases': 300},
     'thorough': {'fsm_ops_compared': 4000000, 'fsm_inside_ops': 500000,
                  'cond_waits_hung_checked': 60000, 'ctx_checks': 4000000,
                  'mt_histories': 30000, 'mt_concurrent_next_calls': 300000,
-                 'fault_cases': 2000, 'fault_release_attempts_that_raised': 1000},
+                 'fault_cases': 2000, 'fault_release_attempts_that_raised': 1000,
+                 'pause_resume_cases': 30000},
 }
 
 
@@ -67,6 +71,10 @@ def plan(tier, seed):
         for p, (f, n) in enumerate(split(1600, 2)):
             shards.append(dict(name=f'mt{p}', mode='nrt', kind='fsm-mt', first_case=f,
                                n=n, secs=30, hard_timeout=160))
+        shards.append(dict(name='prrt', mode='rt', kind='pause-resume', first_case=0, n=60,
+                           secs=40, hard_timeout=160))
+        shards.append(dict(name='prnrt', mode='nrt', kind='pause-resume', first_case=0,
+                           n=600, secs=40, hard_timeout=160))
         for p, (f, n) in enumerate(split(80, 2)):
             shards.append(dict(name=f'cfault{p}', mode='rt', kind='cond-fault',
                                first_case=f, n=n, secs=40, hard_timeout=160))
@@ -80,6 +88,12 @@ def plan(tier, seed):
         for p, (f, n) in enumerate(split(120000, 4)):
             shards.append(dict(name=f'mt{p}', mode='nrt', kind='fsm-mt', first_case=f,
                                n=n, secs=500, hard_timeout=700))
+        for p, (f, n) in enumerate(split(6000, 4)):
+            shards.append(dict(name=f'prrt{p}', mode='rt', kind='pause-resume', first_case=f,
+                               n=n, secs=520, hard_timeout=700))
+        for p, (f, n) in enumerate(split(200000, 2)):
+            shards.append(dict(name=f'prnrt{p}', mode='nrt', kind='pause-resume',
+                               first_case=f, n=n, secs=520, hard_timeout=700))
         for p, (f, n) in enumerate(split(6000, 6)):
             shards.append(dict(name=f'cfault{p}', mode='rt', kind='cond-fault',
                                first_case=f, n=n, secs=520, hard_timeout=700))
@@ -932,8 +946,135 @@ def run_cond_fault(spec, acc):
             main.current_tt = main.main_tt
 
 
+# ---------------------------------------------------------------------------
+# (e) pause / resume and stop / reset / play of a routine that plays on a clock
+# ---------------------------------------------------------------------------
+
+def run_pause_resume(spec, acc):
+    """A routine yielding a constant delta plays on a real clock; a controller
+    routine pauses and resumes it (or stops, resets and plays it again) between
+    two of its wake-ups.  After resume() the routine continues where it was:
+    every step exactly once, the first one at the logical time of the resume,
+    the following ones one delta apart - never lost, never driven twice.  Real
+    time and non real time."""
+    from sc3.base.main import main
+    from sc3.base import clock as clk, stream as stm
+    nrt = spec['shard']['mode'] == 'nrt'
+    mode = 'nrt' if nrt else 'rt'
+    t_stop = time.time() + spec['shard']['secs']
+    for i in iter_cases(spec):
+        if time.time() > t_stop:
+            break
+        rng = case_rng(spec['seed'], 'C11', 'pr' + mode, i)
+        if nrt:
+            main.reset()
+        ck = rng.choice(['SystemClock', 'TempoClock'])
+        tempo = rng.choice([1, 2, 4, 8])
+        d = 1 / 32                              # seconds between steps
+        n = rng.randint(4, 8)
+        how = rng.choice(['pause-resume', 'pause-resume', 'stop-reset-play'])
+        gap = rng.choice([0, 1 / 128, 1 / 64, 3 / 64])     # pause length
+        at = (rng.randint(1, n - 2) + rng.choice([0.25, 0.5, 0.75])) * d
+        wakes, marks = [], {}
+        box = {}
+
+        def setup():
+            clock = clk.SystemClock if ck == 'SystemClock' else clk.TempoClock(tempo)
+            box['clock'] = clock
+            dd = d if ck == 'SystemClock' else d * tempo        # beats
+
+            def body():
+                for k in range(n):
+                    wakes.append((k, clk.SystemClock.seconds))
+                    yield dd
+            r = stm.Routine(body)
+            box['r'] = r
+            marks['start'] = clk.SystemClock.seconds
+            r.play(clock, 0)
+
+            def ctrl():
+                yield at
+                if how == 'pause-resume':
+                    r.pause()
+                    yield gap
+                    marks['resume'] = clk.SystemClock.seconds
+                    r.resume(quant=0)
+                else:
+                    r.stop()
+                    yield gap
+                    r.reset()
+                    marks['resume'] = clk.SystemClock.seconds
+                    r.play(clock, 0)
+                marks['ctrl-done'] = True
+            stm.Routine(ctrl).play(clk.SystemClock)
+        starter = stm.Routine(_once(setup))
+        starter.play(clk.SystemClock)
+        if nrt:
+            try:
+                main.process()
+            except Exception as e:      # noqa
+                acc.violation(f'C11/pause-resume/process-raised/{type(e).__name__}',
+                              {'case': i, 'tb': short_tb(e)})
+                continue
+        else:
+            t_end = time.time() + 4.0
+            while time.time() < t_end:
+                time.sleep(0.02)
+                with main._main_lock:
+                    done = marks.get('ctrl-done') and box.get('r') is not None and \
+                        box['r'].state.name == 'Done'
+                if done:
+                    break
+            time.sleep(0.05)
+        with main._main_lock:
+            got = list(wakes)
+            state = box['r'].state.name if 'r' in box else None
+        if ck == 'TempoClock' and not nrt:
+            box['clock'].stop()
+        acc.count('pause_resume_cases')
+        acc.case(h64(('pr', mode, ck, how, n, at, gap)), nontrivial=True)
+        w = {'case': i, 'clock': ck, 'tempo': tempo, 'how': how, 'steps': n, 'at': at,
+             'gap': gap, 'wakes': [(k, round(t - marks.get('start', 0), 9)) for k, t in got],
+             'resume_at': round(marks.get('resume', 0) - marks.get('start', 0), 9),
+             'state': state}
+        ks = [k for k, _ in got]
+        m = int(at / d) + 1                     # steps done before the controller acted
+        exp_ks = list(range(n)) if how == 'pause-resume' else list(range(m)) + list(range(n))
+        what = None
+        if ks != exp_ks:
+            what = 'steps-lost' if len(ks) < len(exp_ks) else \
+                'steps-repeated' if len(ks) > len(exp_ks) else 'steps-differ'
+        elif state != 'Done':
+            what = 'not-done-at-the-end'
+        else:
+            ts = [t for _, t in got]
+            for j in range(len(ts)):
+                if j == m:
+                    exp_t = marks['resume']
+                elif j == 0:
+                    exp_t = marks['start']
+                else:
+                    exp_t = ts[j - 1] + d
+                if abs(ts[j] - exp_t) > 1e-9 * max(1.0, abs(exp_t)):
+                    what = 'step-at-wrong-time'
+                    w['step'] = j
+                    break
+        if what:
+            acc.violation(f'C11/pause-resume/{what}/{how}/{mode}', w)
+
+
+def _once(f):
+    def g():
+        f()
+        return
+        yield
+    return g
+
+
 def run_shard(spec, acc):
     kind = spec['shard']['kind']
+    if kind == 'pause-resume':
+        return run_pause_resume(spec, acc)
     if kind == 'fsm-mt':
         return run_fsm_mt(spec, acc)
     if kind == 'cond-fault':
